@@ -221,7 +221,9 @@ func (en *Engine) effectsStep(f *ssa.Function) bool {
 			switch i := ins.(type) {
 			case *ssa.Store:
 				viaGlobal(i.Addr, i)
-				if g, ok := i.Addr.(*ssa.Global); ok {
+				// a store to the variable itself or into it (an element of a package-level array, a
+				// field of a package-level struct)
+				if g, ok := baseOf(i.Addr).(*ssa.Global); ok {
 					comp := q("G " + g.Pkg.Pkg.Name() + "." + g.Name())
 					addc(comp, en.u.sortOf(g.Type().(*types.Pointer).Elem()), "")
 					if en.effSites != nil {
@@ -526,7 +528,7 @@ func (en *Engine) checkEffects(fn *ssa.Function, ct *FuncContract, prop string) 
 					continue
 				}
 				c := ""
-				if g, ok := st.Addr.(*ssa.Global); ok {
+				if g, ok := baseOf(st.Addr).(*ssa.Global); ok {
 					c = q("G " + g.Pkg.Pkg.Name() + "." + g.Name())
 				} else {
 					fr := &Frame{en: en, vc: newVC(en.u, en.cs, "eff", en.fset), fn: f, env: map[ssa.Value]Val{}}
